@@ -1,7 +1,8 @@
 ---------------------------------- MODULE TraceRefs ----------------------------------
 (* C14, real histories: the absolute reference of a function resolves to that very       *)
 (* function at every point of the history, activation by reference is accepted, and the   *)
-(* streams obtained by reference equal the streams obtained by name.                      *)
+(* streams obtained by reference equal the streams obtained by name; probing leaves no      *)
+(* stray binding in the function's module.                                                *)
 EXTENDS Integers, Sequences, FiniteSets, TLC, Json, IOUtils, TLCExt, SequencesExt
 Traces == JsonDeserialize(IOEnv.TRACE_FILE)
 VARIABLES tid, l, active, expect, fails
@@ -37,6 +38,7 @@ Progress == TLCSet(tid, <<l - 1, fails>>)
 Post == \A i \in 1..Len(Traces) :
           LET r == TLCGet(i) IN
           /\ (Traces[i].ref_err # "" => PrintT(<<"FAIL", Traces[i].id, [line |-> 0, clause |-> "Refstring", why |-> Traces[i].ref_err, nactive |-> 0]>>))
+          /\ (Traces[i].stray # <<>> => PrintT(<<"FAIL", Traces[i].id, [line |-> 0, clause |-> "ModuleGlobalsPolluted", why |-> Traces[i].stray[1], nactive |-> 0]>>))
           /\ (r[1] # Len(Traces[i].steps) => PrintT(<<"INCOMPLETE", Traces[i].id, r[1]>>))
           /\ \A k \in DOMAIN r[2] : PrintT(<<"FAIL", Traces[i].id, r[2][k]>>)
 =============================================================================
